@@ -289,6 +289,8 @@ class St:
         s.steps = self.steps
         s.trace = list(self.trace)
         s.facts_extra = dict(self.facts_extra)
+        s.end = self.end
+        s.ret = self.ret
         return s
 
 
@@ -1247,11 +1249,12 @@ class Engine:
             if isinstance(x, Flt):
                 return [(st, Flt(fold_f1("neg", x.t)))]
         if u == "PtrMetadata":
-            if isinstance(x, Ref) and x.key is None:
-                if isinstance(x.val, Str):
-                    return [(st, Int(x.val.len, dest_tid))]
-                if isinstance(x.val, Arr):
-                    return [(st, Int(Lin.const(len(x.val.els)), dest_tid))]
+            if isinstance(x, Ref):
+                tgt = x.val if x.key is None else self.deref(st, x)
+                if isinstance(tgt, Str):
+                    return [(st, Int(tgt.len, dest_tid))]
+                if isinstance(tgt, Arr):
+                    return [(st, Int(Lin.const(len(tgt.els)), dest_tid))]
             return [(st, self.fresh(dest_tid, ("len", self.term(x))))]
         return [(st, self.fresh(dest_tid, ("un", u, self.term(x))))]
 
